@@ -770,6 +770,287 @@ fn regex_transcription_crosscheck(budget: usize) -> (usize, Option<Value>) {
     (n, None)
 }
 
+// ------------------------------------------------------------------------------------------------------------------
+// Reference model of the WHOLE validation (written from the property statements / the spec functions in /verif/spec and /verif/contracts,
+// not from the crate): predicts, for a request and a server configuration, acceptance or the kind of the refusal by the documented
+// precedence. Used by the differential search below (BOUNDED / randomised: never counted as proved).
+#[derive(Clone)]
+struct Cfg { region: &'static str, service: &'static str, now: DateTime<Utc>, s3: bool, fold: bool, always: Vec<&'static str>, ifreq: Vec<&'static str>, prefixes: Vec<&'static str> }
+fn is_ws(b: u8) -> bool { b == b' ' || b == b'\t' || b == b'\n' || b == 0x0c || b == b'\r' }
+fn trim_ws(s: &[u8]) -> &[u8] {
+    let mut a = 0; let mut b = s.len();
+    while a < b && is_ws(s[a]) { a += 1; }
+    while b > a && is_ws(s[b - 1]) { b -= 1; }
+    &s[a..b]
+}
+fn split_first_b(s: &[u8], sep: u8) -> (&[u8], Option<&[u8]>) {
+    match s.iter().position(|b| *b == sep) { Some(i) => (&s[..i], Some(&s[i + 1..])), None => (s, None) }
+}
+fn iso_instant_m(s: &[u8]) -> Option<i128> {
+    let g = iso_groups_m(s)?;
+    let dec = |d: &[u8]| -> i128 { d.iter().fold(0i128, |a, b| a * 10 + (*b - b'0') as i128) };
+    let (y, mo, d, h, mi, sec) = (dec(&g.year) as i64, dec(&g.month) as i64, dec(&g.day) as i64, dec(&g.hour), dec(&g.minute), dec(&g.second));
+    let nanos = match &g.frac { Some(f) => { let mut f9: Vec<u8> = f.iter().take(9).copied().collect(); while f9.len() < 9 { f9.push(b'0'); } dec(&f9) } None => 0 };
+    let off = if g.offset == b"Z" { 0 } else {
+        let o = &g.offset; let hh = dec(&o[1..3]); let mm = if o.len() == 5 { dec(&o[3..5]) } else { dec(&o[4..6]) };
+        (if o[0] == b'-' { -1 } else { 1 }) * (hh * 3600 + mm * 60)
+    };
+    if !(-86400 < off && off < 86400) || !ymd_valid(y, mo, d) || !(h < 24 && mi < 60 && sec < 60) { return None; }
+    Some(((ymd_days(y, mo, d) as i128 * 86400 + h * 3600 + mi * 60 + sec) - off) * 1_000_000_000 + nanos)
+}
+fn civil_from_days(z: i64) -> (i64, i64, i64) {
+    let z = z + 719468; let era = z.div_euclid(146097); let doe = z - era * 146097;
+    let yoe = (doe - doe / 1460 + doe / 36524 - doe / 146096) / 365; let y = yoe + era * 400; let doy = doe - (365 * yoe + yoe / 4 - yoe / 100);
+    let mp = (5 * doy + 2) / 153; let d = doy - (153 * mp + 2) / 5 + 1; let m = if mp < 10 { mp + 3 } else { mp - 9 };
+    (if m <= 2 { y + 1 } else { y }, m, d)
+}
+/// Ok((returned uri text if folded else None, returned body length)) or Err(kind name)
+fn model_verdict(r: &Req, c: &Cfg) -> Result<(Option<String>, usize), (&'static str, &'static str)> {
+    // rules 1-4
+    let path = canon_path(r.path.as_bytes(), c.s3).ok_or(("InvalidURIPath", "C09"))?;
+    let mut pairs = parse_query(r.query.as_bytes()).ok_or(("MalformedQueryString", "C10"))?;
+    // header view: lower-cased names, values collapse-trimmed, arrival order per name
+    let hv: Vec<(String, Vec<u8>)> = r.headers.iter().map(|(k, v)| (k.to_lowercase(), collapse_trim(v.as_bytes()))).collect();
+    let hvals = |name: &str| -> Vec<&Vec<u8>> { hv.iter().filter(|h| h.0 == name).map(|h| &h.1).collect() };
+    // content type: FIRST Content-Type header, raw value
+    let mut folded = false;
+    if c.fold {
+        if let Some((_, raw)) = r.headers.iter().find(|h| h.0.to_lowercase() == "content-type") {
+            let pieces: Vec<&[u8]> = raw.as_bytes().split(|b| *b == b';').map(trim_ws).collect();
+            if pieces[0] == b"application/x-www-form-urlencoded" {
+                let mut charset: Option<Vec<u8>> = None;
+                for p in &pieces[1..] {
+                    let (n, v) = split_first_b(p, b'=');
+                    if let Some(v) = v { if n.to_ascii_lowercase() == b"charset" { charset = Some(v.to_vec()); break; } }
+                }
+                let known = match &charset { None => true, Some(l) => { let l = String::from_utf8_lossy(trim_ws(l)).to_ascii_lowercase(); l == "utf-8" || l == "utf8" || l == "unicode-1-1-utf-8" } };
+                if !known { return Err(("InvalidBodyEncoding", "C12")); }
+                let text = std::str::from_utf8(&r.body).map_err(|_| ("InvalidBodyEncoding", "C12"))?;
+                let bp = parse_query(text.as_bytes()).ok_or(("MalformedQueryString", "C12"))?;
+                pairs.extend(bp);
+                folded = true;
+            }
+        }
+    }
+    let merged_query = canon_query(&pairs);
+    if folded && path.len() + 1 + merged_query.len() > 65534 { return Err(("MalformedQueryString", "C12")); }
+    let qfirst = |name: &[u8]| -> Option<&Vec<u8>> { pairs.iter().find(|p| p.0 == name).map(|p| &p.1) };
+    // rule 5
+    let ha = !hvals("authorization").is_empty();
+    let qa = qfirst(b"X-Amz-Algorithm").is_some();
+    if ha && qa { return Err(("SignatureDoesNotMatch", "C19")); }
+    if !ha && !qa { return Err(("MissingAuthenticationToken", "C19")); }
+    // rules 6 / 7: (credential, signature as presented, signed names sorted, date text, token)
+    let (cred, sig, mut signed, date_text): (Vec<u8>, Vec<u8>, Vec<Vec<u8>>, Vec<u8>);
+    if ha {
+        let t = trim_ws(hvals("authorization")[0]).to_vec();
+        let (alg, rest) = split_first_b(&t, b' ');
+        if alg != b"AWS4-HMAC-SHA256" { return Err(("IncompleteSignature", "C19")); }
+        let params = rest.unwrap_or(&[]);
+        let mut m: Vec<(Vec<u8>, Vec<u8>)> = Vec::new();
+        for piece in params.split(|b| *b == b',') {
+            let p = trim_ws(piece);
+            if p.is_empty() { continue; }
+            let (k, v) = split_first_b(p, b'=');
+            let v = v.ok_or(("IncompleteSignature", "C19"))?;
+            m.retain(|e| e.0 != k);
+            m.push((k.to_vec(), v.to_vec()));
+        }
+        let get = |k: &[u8]| m.iter().find(|e| e.0 == k).map(|e| e.1.clone());
+        let (c1, s1, h1) = (get(b"Credential"), get(b"Signature"), get(b"SignedHeaders"));
+        let d1 = hvals("x-amz-date").first().map(|v| (*v).clone()).or_else(|| hvals("date").first().map(|v| (*v).clone()));
+        if c1.is_none() || s1.is_none() || h1.is_none() || d1.is_none() { return Err(("IncompleteSignature", "C19")); }
+        cred = c1.unwrap(); sig = s1.unwrap(); date_text = d1.unwrap();
+        signed = h1.unwrap().split(|b| *b == b';').map(|s| s.to_vec()).collect();
+    } else {
+        if qfirst(b"X-Amz-Algorithm").unwrap() != b"AWS4-HMAC-SHA256" { return Err(("MissingAuthenticationToken", "C19")); }
+        let (c1, s1, h1, d1) = (qfirst(b"X-Amz-Credential"), qfirst(b"X-Amz-Signature"), qfirst(b"X-Amz-SignedHeaders"), qfirst(b"X-Amz-Date"));
+        if c1.is_none() || s1.is_none() || h1.is_none() || d1.is_none() { return Err(("IncompleteSignature", "C19")); }
+        cred = decode(c1.unwrap(), false).unwrap(); sig = s1.unwrap().clone(); date_text = decode(d1.unwrap(), false).unwrap();
+        signed = decode(h1.unwrap(), false).unwrap().split(|b| *b == b';').map(|s| s.to_vec()).collect();
+    }
+    signed.sort();
+    // rule 8
+    let has = |n: &[u8]| signed.iter().any(|s| s == n);
+    if !(has(b"host") || has(b":authority")) { return Err(("SignatureDoesNotMatch", "C05")); }
+    for a in &c.always { if !has(a.to_lowercase().as_bytes()) { return Err(("SignatureDoesNotMatch", "C05")); } }
+    for a in &c.ifreq { let l = a.to_lowercase(); if !hvals(&l).is_empty() && !has(l.as_bytes()) { return Err(("SignatureDoesNotMatch", "C05")); } }
+    for p in &c.prefixes { let l = p.to_lowercase(); for (k, _) in &hv { if k.starts_with(&l) && !has(k.as_bytes()) { return Err(("SignatureDoesNotMatch", "C05")); } } }
+    // rule 9
+    let t = iso_instant_m(&date_text).ok_or(("IncompleteSignature", "C16"))?;
+    // rules 10-13
+    let now_ns = c.now.timestamp() as i128 * 1_000_000_000 + c.now.timestamp_subsec_nanos() as i128;
+    let w = 900i128 * 1_000_000_000;
+    if t < now_ns - w || t > now_ns + w { return Err(("SignatureDoesNotMatch", "C04")); }
+    let parts: Vec<&[u8]> = cred.split(|b| *b == b'/').collect();
+    if parts.len() != 5 { return Err(("IncompleteSignature", "C03")); }
+    let (y, m, d) = civil_from_days(t.div_euclid(86_400_000_000_000) as i64);
+    let ymd = format!("{:04}{:02}{:02}", y, m, d);
+    if parts[2] != c.region.as_bytes() || parts[3] != c.service.as_bytes() || parts[4] != b"aws4_request" || parts[1] != ymd.as_bytes() { return Err(("SignatureDoesNotMatch", "C03")); }
+    // signature: canonical request of the request as received
+    let mut creq = Vec::new();
+    creq.extend(r.method.as_bytes()); creq.push(b'\n'); creq.extend(&path); creq.push(b'\n'); creq.extend(&merged_query); creq.push(b'\n');
+    for name in &signed {
+        let vals: Vec<Vec<u8>> = hv.iter().filter(|h| h.0.as_bytes() == name.as_slice()).map(|h| h.1.clone()).collect();
+        if !vals.is_empty() { creq.extend(name); creq.push(b':'); creq.extend(vals.join(&b',')); creq.push(b'\n'); }
+    }
+    creq.push(b'\n'); creq.extend(signed.join(&b';')); creq.push(b'\n');
+    creq.extend(sha_hex(if folded { b"" } else { &r.body }).as_bytes());
+    let secs = t.div_euclid(1_000_000_000); let sod = secs.rem_euclid(86400);
+    let compact = format!("{}T{:02}{:02}{:02}Z", ymd, sod / 3600, sod % 3600 / 60, sod % 60);
+    let scope = &cred[cred.iter().position(|b| *b == b'/').unwrap() + 1..];
+    let mut sts = format!("AWS4-HMAC-SHA256\n{}\n", compact).into_bytes(); sts.extend(scope); sts.push(b'\n'); sts.extend(sha_hex(&creq).as_bytes());
+    let key = signing_key(&ymd, c.region, c.service);
+    let expected = hex::encode(hmac(&key, &sts));
+    if sig != expected.as_bytes() { return Err(("SignatureDoesNotMatch", "C01")); }
+    if folded {
+        let mut u = String::from_utf8_lossy(&path).to_string();
+        if !merged_query.is_empty() { u.push('?'); u.push_str(&String::from_utf8_lossy(&merged_query)); }
+        Ok((Some(u), 0))
+    } else { Ok((None, r.body.len())) }
+}
+
+static DIFF_HIST: std::sync::Mutex<Vec<(String, usize)>> = std::sync::Mutex::new(Vec::new());
+fn xorshift(x: &mut u64) -> u64 { *x ^= *x << 13; *x ^= *x >> 7; *x ^= *x << 17; *x }
+/// Randomised differential test of sigv4_validate_request against the reference model. BOUNDED: `budget` requests from the seed.
+fn search_differential(seed: u64, budget: usize, want: Option<&str>) -> (usize, Option<Value>) {
+    let mut x: u64 = 0x9E3779B97F4A7C15 ^ seed.wrapping_mul(0xD1B54A32D192ED03) | 1;
+    let pick = |x: &mut u64, n: usize| (xorshift(x) % n as u64) as usize;
+    let paths = ["/", "/a/b", "/a%20b/c", "/x/./y/../z", "//p//q/", "/%7Euser/-_.", "/a%2fb", "/a/b/", "/..", "/a/%zz", "/%E4%B8%AD/%e4%b8%ad", "/a;b=c/d@e", "/./", "/a/../../b", "/%2E%2e/x", "/a%25b",
+        "/x/%2E/y", "/x/%2e%2E/y", "/x/y/%2e%2e", "/a/.../b", "/a/..b/.c", "/a//b//", "/%41%42/%7e", "/a/%2F/b", "/a/b/..", "/a/b/.", "/a%", "/a%4", "/*'()!", "/a/%+1"];
+    let queries = ["", "a=1", "b=2&a=1&a=0", "a=1&a-b=2", "q=x%20y&q=x+y", "k=v%3D%3D&e=", "%41=1&a=%61", "d=1&d=1", "m=YWJj==", "&&x&&", "x=%zz", "a=%e4%b8%ad&A=1", "z=1&y=2&Z=3", "a=b=c=d", "=v", "x-amz-signature=1",
+        "a.b=1&a=2&a-=3", "k=%2B&k=+&k=%20", "x=1&X-Amz-Signature=abc", "p=%7E&p=~", "e=&e", "a=1&&b=2&", "s=a%26b%3Dc", "u=%E2%82%AC"];
+    let extra: [&[(&str, &str)]; 8] = [&[], &[("X-Custom", "  a   b  ")], &[("x-dup", "1"), ("X-Dup", "2")], &[("Date", "Sun, 30 Aug 2015 12:36:00 GMT")], &[("X-Amz-Meta-Tab", "a\tb")],
+        &[("X-Amz-Target", "Svc.Op"), ("ETag", "\"abc\"")], &[("X-Amz-Security-Token", "tok/en+="), ("x-amz-security-token", "second")], &[("Content-Type", "text/plain")]];
+    let dates = ["20150830T123600Z", "2015-08-30T12:36:00Z", "20150830T143600+0200", "2015-08-30T07:06:00.000-05:30", "20150830T123600,5Z", "20150830T123600", "2015-08-30 12:36:00Z", "20150830T123660Z", "20150230T123600Z", "20150830T122059Z", "20150830T125101Z", "20150830T125100Z", "20150830T122100Z",
+        "20150830T125100.5Z", "20150830T122059.999999999Z", "20150830T125100.000000001Z", "20150830T122100.0Z", "20150831T003000+1200", "20150829T233600-1300", "2015-08-30T12:36:00+00:00", "20150830T123600-0000", "20150830T123600.Z", "20150830T123600+2400", "20150830t123600z", " 20150830T123600Z"];
+    let bodies: [&[u8]; 12] = [b"", b"a=3&c=4", b"x=%7E&x=~", b"\xEF\xBB\xBFa=b", b"a=%zz", b"\xff\xfe", b"k=v&&k2", b"b=2\n", b" a=1", b"a=1 ", b"\r\nz=9\r\n", b"a=b=c&d"];
+    let ctypes = ["application/x-www-form-urlencoded", "application/x-www-form-urlencoded; charset=utf-8", "application/x-www-form-urlencoded;charset=UTF8", "application/x-www-form-urlencoded; Charset=klingon",
+        "application/x-www-form-urlencoded ; boundary=x ; CHARSET=utf-8", "Application/X-WWW-Form-Urlencoded", "text/plain; charset=klingon", "application/x-www-form-urlencoded; charset"];
+    let base_now = Utc.with_ymd_and_hms(2015, 8, 30, 12, 36, 0).unwrap();
+    let mut n = 0usize;
+    while n < budget {
+        n += 1;
+        let cfg = Cfg { region: ["us-east-1", "eu-west-1"][if pick(&mut x, 8) == 0 { 1 } else { 0 }], service: "service", now: base_now + chrono::Duration::milliseconds([0i64, 0, 0, 899_000, -899_000, 900_000, 901_000, -901_000, 5_000, 900_250, -900_250, 43_200_000, -43_200_000][pick(&mut x, 13)]),
+            s3: pick(&mut x, 3) == 0, fold: pick(&mut x, 2) == 0,
+            always: [vec![], vec![], vec!["X-Amz-Target"], vec!["content-type"]][pick(&mut x, 4)].clone(), ifreq: [vec![], vec!["ETag"], vec!["x-custom"]][pick(&mut x, 3)].clone(),
+            prefixes: [vec![], vec![], vec!["x-amz-meta-"], vec!["X-Amz-"]][pick(&mut x, 4)].clone() };
+        let mut r = Req { method: ["GET", "POST", "PUT"][pick(&mut x, 3)], path: paths[pick(&mut x, paths.len())].into(), query: queries[pick(&mut x, queries.len())].into(),
+            headers: vec![("Host".into(), "example.amazonaws.com".into())], body: vec![] };
+        if pick(&mut x, 3) == 0 {
+            // token soup: paths and queries assembled from a small alphabet of troublesome pieces
+            let ptoks = ["/", "/", "a", "b", ".", "..", "%2e", "%2E", "%2F", "%2f", "%41", "~", "%7e", "%7E", "%25", "%", "%4", "%zz", ";", "@", ":", "=", ",", "-", "_", "%20", "%C3%A9", "!", "*", "'", "(", ")"];
+            let mut pth = String::from("/");
+            for _ in 0..pick(&mut x, 8) { pth.push_str(ptoks[pick(&mut x, ptoks.len())]); }
+            r.path = pth;
+            let qtoks = ["a", "b", "A", "=", "=", "&", "&", "%3D", "%26", "+", "%20", "%2B", "%", "%2", "%zz", "%41", "%61", "~", "%7E", "-", ".", "_", "X-Amz-Signature", "x", "1", "%C3%A9", "/", "?", ":", "@"];
+            let mut q = String::new();
+            for _ in 0..pick(&mut x, 10) { q.push_str(qtoks[pick(&mut x, qtoks.len())]); }
+            r.query = q;
+        }
+        for (k, v) in extra[pick(&mut x, extra.len())] { r.headers.push((k.to_string(), v.to_string())); }
+        if pick(&mut x, 4) == 0 {
+            let vtoks = [" ", "  ", "\t", "a", "b", ",", ";", "=", "\"", "é", "~"];
+            let mut v = String::new();
+            for _ in 0..pick(&mut x, 7) { v.push_str(vtoks[pick(&mut x, vtoks.len())]); }
+            r.headers.push((["X-Amz-Meta-Soup", "x-soup", "X-Custom"][pick(&mut x, 3)].to_string(), v));
+        }
+        if pick(&mut x, 2) == 0 { r.headers.push(("Content-Type".into(), ctypes[pick(&mut x, ctypes.len())].into())); r.body = bodies[pick(&mut x, bodies.len())].to_vec(); }
+        // sign with the reference signer as a client would: over the request the model says the server will canonicalise
+        let date_text = dates[pick(&mut x, dates.len())];
+        let carrier_header = pick(&mut x, 3) != 0;
+        let folds_for_signer = { // does the model fold this request? then the client signs the merged query and an empty body
+            let mut probe = Req { method: r.method, path: "/".into(), query: "".into(), headers: r.headers.clone(), body: r.body.clone() };
+            probe.headers.push(("Authorization".into(), "x".into()));
+            cfg.fold && r.headers.iter().find(|h| h.0.to_lowercase() == "content-type").map(|h| trim_ws(h.1.as_bytes().split(|b| *b == b';').next().unwrap()) == b"application/x-www-form-urlencoded").unwrap_or(false) && { let _ = &mut probe; true }
+        };
+        let signed_ok = {
+            let mut view = Req { method: r.method, path: r.path.clone(), query: r.query.clone(), headers: r.headers.clone(), body: r.body.clone() };
+            if folds_for_signer {
+                if let Ok(t) = std::str::from_utf8(&r.body) { if !t.is_empty() { view.query = if view.query.is_empty() { t.to_string() } else { format!("{}&{}", view.query, t) }; } }
+                view.body = vec![];
+            }
+            let compact = "20150830T123600Z";
+            let ok = if carrier_header { let bh = view.body.clone(); sign_header_ext(&mut view, date_text, compact, "us-east-1", "service", cfg.s3, &bh, None).is_some() }
+                     else { view.headers.push(("X-Amz-Date".into(), date_text.into())); sign_query(&mut view, compact, "us-east-1", "service", cfg.s3).is_some() };
+            if ok {
+                r.headers = view.headers.clone();
+                if !carrier_header {
+                    // carry over only the X-Amz-* parameters the signer appended to the (possibly merged) query
+                    let appended = view.query.rsplit_once("X-Amz-Algorithm=").map(|p| format!("X-Amz-Algorithm={}", p.1));
+                    if let Some(a) = appended { r.query = if r.query.is_empty() { a } else { format!("{}&{}", r.query, a) }; }
+                }
+            }
+            ok
+        };
+        if !signed_ok {
+            // unsignable (bad path/query for the reference signer): still a useful refusal case with some carrier attached
+            r.headers.push(("X-Amz-Date".into(), date_text.into()));
+            r.headers.push(("Authorization".into(), format!("AWS4-HMAC-SHA256 Credential={}/20150830/us-east-1/service/aws4_request, SignedHeaders=host;x-amz-date, Signature={}", AKID, "0".repeat(64))));
+        }
+        // post-signing mutations (0-2)
+        for _ in 0..pick(&mut x, 3) {
+            match pick(&mut x, 19) {
+                0 => { for h in r.headers.iter_mut() { if h.0 == "Authorization" { h.1.push('0'); } } }
+                1 => { r.headers.push(("X-Unsigned".into(), "v".into())); }
+                2 => { r.headers.push(("X-Amz-Meta-New".into(), "v".into())); }
+                3 => { r.query = if r.query.is_empty() { "zz=1".into() } else { format!("{}&zz=1", r.query) }; }
+                4 => { r.path = r.path.replace("%7E", "~").replace("%e4", "%E4"); }
+                5 => { r.query = r.query.replace("%20", "+").replace("%61", "a"); }
+                6 => { r.headers.push(("Authorization".into(), "Basic Zm9vOmJhcg==".into())); }
+                7 => { r.query = if r.query.is_empty() { "X-Amz-Algorithm=AWS4-HMAC-SHA256".into() } else { format!("{}&X-Amz-Algorithm=AWS4-HMAC-SHA256", r.query) }; }
+                8 => { for h in r.headers.iter_mut() { if h.0 == "Authorization" { h.1 = h.1.replace("us-east-1", "eu-west-1"); } } }
+                9 => { for h in r.headers.iter_mut() { if h.0 == "Authorization" { h.1 = h.1.replace("/aws4_request", "/aws4_request/x"); } } }
+                10 => { for h in r.headers.iter_mut() { if h.0 == "Authorization" { h.1 = h.1.replace(", Signature=", ", signature="); } } }
+                11 => { for h in r.headers.iter_mut() { if h.0 == "Authorization" { h.1 = h.1.replace("AWS4-HMAC-SHA256 ", "AWS4-HMAC-SHA256   ").replace(", ", " ,  "); } } }
+                12 => { r.headers.retain(|h| h.0 != "Host"); r.headers.insert(0, ("HOST".into(), " example.amazonaws.com ".into())); }
+                13 => { r.headers.push(("x-amz-date".into(), "20150830T000000Z".into())); }
+                14 => { r.body.extend(b"&t=1"); }
+                15 => { let v = ["AWS4-HMAC-SHA256,", "AWS4-HMAC-SHA256", "AWS4-HMAC-SHA256\t", "aws4-hmac-sha256 ", "AWS4-HMAC-SHA256X ", " AWS4-HMAC-SHA256 "][pick(&mut x, 6)];
+                        for h in r.headers.iter_mut() { if h.0 == "Authorization" { h.1 = h.1.replacen("AWS4-HMAC-SHA256 ", v, 1); } } }
+                16 => { for h in r.headers.iter_mut() { if h.0 == "Authorization" { h.1 = h.1.replace("Credential=", ["credential=", "Credential =", "Credential==", ",Credential="][pick(&mut x, 4)]); } } }
+                17 => { for h in r.headers.iter_mut() { if h.0 == "Authorization" { h.1 = h.1.replace("SignedHeaders=", "SignedHeaders=zz;"); } } }
+                _ => { r.method = if r.method == "GET" { "POST" } else { "GET" }; }
+            }
+        }
+        let mut reqs = VecSignedHeaderRequirements::default();
+        for a in &cfg.always { reqs.add_always_present(a); }
+        for a in &cfg.ifreq { reqs.add_if_in_request(a); }
+        for a in &cfg.prefixes { reqs.add_prefix(a); }
+        let opt = match (cfg.s3, cfg.fold) { (false, false) => SignatureOptions::default(), (true, false) => SignatureOptions::S3, (false, true) => SignatureOptions::url_encode_form(),
+            (true, true) => SignatureOptions { s3: true, url_encode_form: true } };
+        if r.path.contains('+') { continue; } // D6 (open known finding): raw + in paths is outside the relativised contract
+        let real = validate_with(&r, cfg.now, cfg.region, cfg.service, opt, &reqs);
+        if matches!(&real, Err(e) if e.starts_with("http:")) { continue; } // the http crate refused to build the request: not an input
+        let model = model_verdict(&r, &cfg);
+        {
+            let key = match &model { Ok((Some(_), _)) => "accepted (folded)".to_string(), Ok(_) => "accepted".to_string(), Err(k) => k.0.to_string() };
+            let mut h = DIFF_HIST.lock().unwrap();
+            if let Some(e) = h.iter_mut().find(|e| e.0 == key) { e.1 += 1; } else { h.push((key, 1)); }
+        }
+        let agree = match (&real, &model) {
+            (Ok((uri, blen)), Ok((muri, mlen))) => blen == mlen && muri.as_ref().map(|m| uri == m).unwrap_or(true),
+            (Err(e), Err(k)) => e.starts_with(&format!("{}:", k.0)),
+            _ => false,
+        };
+        // which property a disagreement speaks about: the rule the model applied (a request it refuses is accepted), completeness (a request it
+        // accepts is refused), precedence/taxonomy (both refuse, different kinds), pass-through (both accept, different returned request)
+        let about: Vec<&str> = match (&real, &model) {
+            (Ok(_), Err(k)) => vec![k.1],
+            (Err(_), Ok(_)) => if folds_for_signer { vec!["C02", "C12"] } else { vec!["C02"] },
+            (Err(_), Err(k)) => vec!["C13", k.1],
+            (Ok(_), Ok((muri, _))) => if muri.is_some() { vec!["C15", "C12"] } else { vec!["C15"] },
+        };
+        if !agree && want.map(|w| about.contains(&w)).unwrap_or(true) {
+            return (n, Some(json!({"fn": "sigv4_validate_request", "case": "differential: the reference model of the whole validation and the crate disagree", "seed": seed, "case_no": n, "speaks_about": about,
+                "method": r.method, "path": r.path, "query": r.query, "headers": r.headers, "body_hex": hex::encode(&r.body),
+                "config": {"region": cfg.region, "service": cfg.service, "now": cfg.now.to_rfc3339(), "s3": cfg.s3, "fold": cfg.fold, "always": cfg.always, "if_in_request": cfg.ifreq, "prefixes": cfg.prefixes},
+                "model": format!("{:?}", model), "real": format!("{:?}", real)})));
+        }
+    }
+    (n, None)
+}
+
 /// C04 / C16: textual renderings of one instant, window boundaries, malformed dates (header carrier)
 fn search_time(what: &str) -> (usize, Option<Value>) {
     let mut n = 0;
@@ -1410,7 +1691,13 @@ fn searches_for(pid: &str, strict_d6: bool) -> Vec<(&'static str, (usize, Option
     if all || pid == "C11" || pid == "C19" {
         v.push(("carriers", search_carriers()));
     }
+    if ["C01", "C02", "C03", "C04", "C05", "C09", "C10", "C11", "C12", "C13", "C15", "C16", "C19"].contains(&pid) {
+        let seed: u64 = std::env::var("VERIF_SEED").ok().and_then(|s| s.parse().ok()).unwrap_or(0);
+        let budget: usize = std::env::var("VERIF_DIFF_BUDGET").ok().and_then(|s| s.parse().ok()).unwrap_or(100_000);
+        v.push(("differential", search_differential(seed, budget, Some(if pid == "C11" { "C01" } else { pid }))));
+    }
     if pid == "C08" {
+        v.push(("differential_panics", search_differential(0, 100_000, None)));
         // totality: only panics count
         for r in v.iter_mut() {
             let is_panic = r.1 .1.as_ref().map(|d| d.to_string().contains("PANIC")).unwrap_or(false);
@@ -1434,7 +1721,7 @@ fn main() {
             let cases: usize = rs.iter().map(|r| r.1 .0).sum();
             let found: Vec<Value> = rs.iter().filter_map(|r| r.1 .1.clone().map(|d| json!({"search": r.0, "disagreement": d}))).collect();
             json!({"ok": true, "found": !found.is_empty(), "cases": cases, "searches": rs.iter().map(|r| json!({"name": r.0, "cases": r.1.0})).collect::<Vec<_>>(), "disagreements": found,
-                   "bound": "strings up to 4-6 symbols over small alphabets; fixed list of structured paths/queries; 6x7x3x2 signed requests", "strict_d6": strict_d6})
+                   "bound": "strings up to 4-6 symbols over small alphabets; fixed lists of structured paths/queries/dates/content types; 6x7x3x2 reference-signed requests and their forged variants; differential: VERIF_DIFF_BUDGET (default 100 000) pseudo-random signed and mutated requests from VERIF_SEED against the reference model of the whole validation", "strict_d6": strict_d6})
         }
         Some("standing") => {
             let pid = args.get(2).map(|s| s.as_str()).unwrap_or("");
@@ -1443,12 +1730,26 @@ fn main() {
             if pid == "C15" { rs.push(("into_request_bytes", search_into_bytes())); rs.push(("identity_passthrough", search_identity())); }
             if pid == "C05" { rs.push(("requirement_mutators", search_requirement_mutators())); }
             if pid == "C16" { rs.push(("calendar_exhaustive", calendar_exhaustive())); rs.push(("regex_transcription", regex_transcription_crosscheck(200_000))); }
+            if pid == "C01" || pid == "C02" || pid == "C13" {
+                let seed: u64 = std::env::var("VERIF_SEED").ok().and_then(|s| s.parse().ok()).unwrap_or(0);
+                rs.push(("differential", search_differential(seed, 50_000, Some(pid))));
+            }
             let cases: usize = rs.iter().map(|r| r.1 .0).sum();
             let found: Vec<Value> = rs.iter().filter_map(|r| r.1 .1.clone().map(|d| json!({"search": r.0, "disagreement": d}))).collect();
             json!({"ok": true, "found": !found.is_empty(), "cases": cases, "searches": rs.iter().map(|r| json!({"name": r.0, "cases": r.1.0})).collect::<Vec<_>>(), "disagreements": found,
                    "bound": match pid {
+                       "C01" | "C02" | "C13" => "differential: BOUNDED, 50 000 pseudo-random reference-signed and mutated requests (seed VERIF_SEED) through sigv4_validate_request against the reference model of the whole validation; it checks the assumed contracts of the dependencies as much as the crate",
                        "C16" => "calendar_exhaustive: COMPLETE by native execution over every (y, m, d) the pattern admits (0000-9999 x 01-12 x 01-31) against chrono; regex_transcription: BOUNDED, 200 000 structured and mutated strings against the regex crate on the repository's exact pattern text",
                        _ => "fixed lists of Content-Type spellings / body lengths / requirement-set constructions: the COMPILED get_content_type_and_charset, trim_ascii, IntoRequestBytes impls and VecSignedHeaderRequirements mutators against the same specs their extracted text is verified against" }})
+        }
+        Some("differential") => {
+            let seed: u64 = args.get(2).and_then(|s| s.parse().ok()).unwrap_or(0);
+            let budget: usize = args.get(3).and_then(|s| s.parse().ok()).unwrap_or(20000);
+            let (cases, found) = search_differential(seed, budget, None);
+            let hist: Vec<Value> = DIFF_HIST.lock().unwrap().iter().map(|e| json!({"model_verdict": e.0, "requests": e.1})).collect();
+            json!({"ok": true, "found": found.is_some(), "cases": cases, "searches": [{"name": "differential", "cases": cases}], "verdict_histogram": hist,
+                   "disagreements": found.map(|d| vec![json!({"search": "differential", "disagreement": d})]).unwrap_or_default(),
+                   "bound": format!("{} pseudo-random signed / mutated requests from seed {} against the reference model of the whole validation", budget, seed)})
         }
         Some("rerun") => {
             // re-run = run the searches again and report whether the recorded disagreement is still present
